@@ -6,6 +6,8 @@
 (* every kind of wrong argument.  Focus selects the family of behaviours:  *)
 (*   "core"   all calls, no faults            (C02 C03 C04 C05 C06)        *)
 (*   "file"   export / tamper / import heavy, two wallets (C01)            *)
+(*   "keys"   keys issued on both branches, then export / delete / import  *)
+(*            and unlock: what was issued must sign wherever it lands (C05)*)
 (*   "fault"  every mutating call may carry a fault (C12)                  *)
 (* Used with tlc -simulate (GenLen actions per behaviour).                 *)
 (***************************************************************************)
@@ -46,27 +48,41 @@ Do(op) == /\ Sensible(S, op)
                 /\ hist' = Append(hist, op @@ [fault |-> fault, k |-> RS(1..24), c |-> IF Coin(3) THEN 2 ELSE 1])
 
 GInit == Init /\ hist = <<>>
+\* focus "keys": the behaviour starts after a keystore has issued keys on both branches (locked, as a fresh keystore is) and
+\* has been exported, with the second wallet open: what follows moves that keystore around (the prefix is replayed like
+\* every other step)
+KeysPrefix == <<[t |-> "Open", w |-> "w1", q |-> "p1"],
+                [t |-> "NewKs", w |-> "w1", p |-> "q1", s |-> "s1", r |-> "r1"],
+                [t |-> "NextAddr", w |-> "w1", s |-> "s1", b |-> 0, n |-> 2],
+                [t |-> "NextAddr", w |-> "w1", s |-> "s1", b |-> 1, n |-> 2],
+                [t |-> "GenKey", w |-> "w1", s |-> "s1"],
+                [t |-> "Export", w |-> "w1", s |-> "s1", p |-> "q1", f |-> "f1"],
+                [t |-> "Open", w |-> "w2", q |-> "p2"]>>
+RECURSIVE ApplyAll(_, _)
+ApplyAll(st, ops) == IF ops = <<>> THEN st ELSE ApplyAll(Apply(st, Head(ops), "none"), Tail(ops))
+GInitKeys == /\ S = ApplyAll(InitS, KeysPrefix)
+             /\ hist = [i \in 1..Len(KeysPrefix) |-> KeysPrefix[i] @@ [fault |-> "none", k |-> 1, c |-> 1]]
 
 W(n) == 1..n      \* weight of an alternative
 
 GNext ==
-  \/ \E w \in Down : \E i \in W(IF Up = {} \/ Focus = "file" THEN 12 ELSE 3) : Do([t |-> "Open", w |-> w, q |-> PickPub(w)])
+  \/ \E w \in Down : \E i \in W(IF Up = {} \/ Focus \in {"file", "keys"} THEN 12 ELSE 3) : Do([t |-> "Open", w |-> w, q |-> PickPub(w)])
   \/ \E w \in Up : Do([t |-> "Close", w |-> w])
   \* (fault focus: wallets with several keystores are where one call spans several keystores)
   \/ \E w \in Up : \E i \in W(IF ~HasKs(S, w) THEN 24 ELSE IF Focus = "fault" /\ Cardinality(Present(S, w)) = 1 THEN 8 ELSE 2) :
         Do([t |-> "NewKs", w |-> w, p |-> PickPriv(w), s |-> FreeSeed(w), r |-> RS(Remarks)])
-  \/ \E w \in Up : \E i \in W(3) : Live(w) /\ Do([t |-> "NextAddr", w |-> w, s |-> PickSeed(w), b |-> RS({0, 1}), n |-> RS(0..2)])
-  \/ \E w \in Up : \E i \in W(3) : Live(w) /\ Do([t |-> "GenKey", w |-> w, s |-> PickSeed(w)])
+  \/ \E w \in Up : \E i \in W(IF Focus = "keys" THEN 9 ELSE 3) : Live(w) /\ Do([t |-> "NextAddr", w |-> w, s |-> PickSeed(w), b |-> RS({0, 1}), n |-> RS(0..2)])
+  \/ \E w \in Up : \E i \in W(IF Focus = "keys" THEN 5 ELSE 3) : Live(w) /\ Do([t |-> "GenKey", w |-> w, s |-> PickSeed(w)])
   \/ \E w \in Up : Live(w) /\ Do([t |-> "Remark", w |-> w, s |-> PickSeed(w), r |-> RS(Remarks)])
   \/ \E w \in Up : \E i \in W(IF Focus = "fault" /\ Cardinality(Present(S, w)) >= 2 THEN 6 ELSE 2) :
         Live(w) /\ Do([t |-> "ChangePriv", w |-> w, old |-> PickPriv(w), new |-> IF Coin(4) THEN RS(Pass) ELSE FreshPass(w)])
   \/ \E w \in Up : \E i \in W(2) : Do([t |-> "ChangePub", w |-> w, old |-> PickPub(w), new |-> IF Coin(4) THEN RS(Pass) ELSE FreshPass(w)])
-  \/ \E w \in Up : \E i \in W(IF Focus = "file" THEN 3 ELSE 1) : Live(w) /\ Do([t |-> "Delete", w |-> w, s |-> PickSeed(w), p |-> PickPriv(w)])
-  \/ \E w \in Up : \E i \in W(IF Focus = "file" THEN 10 ELSE 1) : FreeFiles # {} /\ Live(w) /\
+  \/ \E w \in Up : \E i \in W(IF Focus \in {"file", "keys"} THEN 3 ELSE 1) : Live(w) /\ Do([t |-> "Delete", w |-> w, s |-> PickSeed(w), p |-> PickPriv(w)])
+  \/ \E w \in Up : \E i \in W(IF Focus = "file" THEN 10 ELSE IF Focus = "keys" THEN 6 ELSE 1) : FreeFiles # {} /\ Live(w) /\
         Do([t |-> "Export", w |-> w, s |-> PickSeed(w), p |-> PickPriv(w), f |-> RS(FreeFiles)])
   \/ \E i \in W(IF Focus = "file" THEN 4 ELSE 0) : CleanFiles # {} /\
         Do([t |-> "Tamper", f |-> RS(CleanFiles), fld |-> RS(TamperFields)])
-  \/ \E w \in Up : \E i \in W(IF Focus = "file" THEN 14 ELSE 1) : UsedFiles # {} /\
+  \/ \E w \in Up : \E i \in W(IF Focus = "file" THEN 14 ELSE IF Focus = "keys" THEN 10 ELSE 1) : UsedFiles # {} /\
         LET f == RS(UsedFiles) IN
         Do([t |-> "Import", w |-> w, f |-> f,
             old |-> IF Coin(8) THEN RS(Pass) ELSE S.files[f].sealed,
@@ -75,7 +91,7 @@ GNext ==
             new |-> IF HasKs(S, w) /\ S.files[f].sealed # S.priv[w] /\ Coin(2) THEN ""
                     ELSE IF Coin(3) THEN "" ELSE IF Coin(8) THEN RS(Pass) ELSE IF HasKs(S, w) THEN S.priv[w] ELSE FreshPass(w)])
   \/ \E w \in Up : Do([t |-> "Lock", w |-> w])
-  \/ \E w \in Up : \E i \in W(3) : Do([t |-> "Unlock", w |-> w, p |-> PickPriv(w)])
+  \/ \E w \in Up : \E i \in W(IF Focus = "keys" THEN 7 ELSE 3) : Do([t |-> "Unlock", w |-> w, p |-> PickPriv(w)])
   \/ \E w \in Up : Live(w) /\ Do([t |-> "Sign", w |-> w, s |-> PickSeed(w), b |-> RS({0, 1}), i |-> RS(0..2)])
   \/ \E w \in Up : Live(w) /\ Do([t |-> "Ordinal", w |-> w, s |-> PickSeed(w), b |-> RS({0, 1}), i |-> RS(0..2)])
 
